@@ -247,6 +247,33 @@ template <typename B> std::string runOp(const std::string & op, std::istringstre
     if (r.kind == 'E') return "error " + r.cls;
     return "ok " + std::to_string(b.size() - r.consumed) + (op == "load" ? " reads=" + std::to_string(r.calls) : extra.str());
   }
+  if (op == "lookups") {  // lookups <N> s1..sN | <dat tokens>: build F, dump, load G; F.at(c) == G.at(c) bitwise at every lattice coordinate
+    if constexpr (requires { typename F::coordinate_t; } && !std::is_arithmetic_v<std::decay_t<typename F::coordinate_t>>) {
+      std::size_t N; is >> N; std::vector<u64> sz(N); for (auto & x : sz) is >> x; std::string bar; is >> bar;
+      using CT = std::decay_t<typename F::coordinate_t>;
+      using SC = std::decay_t<decltype(std::declval<CT>()[0])>;
+      if (N != B::contravariant_input_t::dimensions) return "unsupported-dims";
+      auto f = fieldOf<B>(t);
+      std::string bytes = dumpOf(f);
+      std::istringstream iss(bytes);
+      F g(iss);
+      typename F::view_t vf(f), vg(g);
+      std::vector<u64> c(N, 0); u64 total = 1;
+      for (auto & x : sz) { x = x > 1 ? x - 1 : 1; total *= x; }     // stay one short of the last plane (linear reads the +1 neighbour)
+      u64 bad = 0;
+      for (u64 k = 0; k < total; ++k) {
+        CT cc; for (std::size_t d = 0; d < N; ++d) cc[d] = static_cast<SC>(c[d]);
+        auto rf = vf.at(cc); auto rg = vg.at(cc);
+        for (std::size_t q = 0; q < B::covariant_output_t::dimensions; ++q) {
+          auto a = rf[q]; auto b = rg[q];
+          // bitwise equal, or both NaN (which operand's payload an arithmetic NaN inherits is up to the compiler's operand order)
+          if (std::memcmp(&a, &b, sizeof(a)) != 0 && !(a != a && b != b)) { ++bad; break; }
+        }
+        for (std::size_t d = N; d-- > 0;) { if (++c[d] < sz[d]) break; c[d] = 0; }
+      }
+      return "ok " + std::to_string(total) + " " + std::to_string(bad);
+    } else return "unsupported-coords";
+  }
   if (op == "fload") {  // fload <mode> <arg> <hex>
     std::string m; u64 arg; is >> m >> arg >> h; std::string b = unhex(h);
     Outcome r = loadPlain<F>(b, modeOf(m), arg);
